@@ -59,6 +59,13 @@ def run_job(job):
         if d is not None:
             out["scen"] = scen
             out["schedule"] = [[a, v] for a, v, _ in rec["trace"]]
+    if scen.get("kind") == "reusable":
+        out["reuse_calls"] = rec.get("reuse_calls", [])
+        out["nusers"] = len(scen["users"])
+        out["cpu_count"] = scen.get("cpu_count", 2)
+        out["clean"] = not facts["crashes"] and not facts["timeouts"]
+        if "scen" not in out:
+            out["scen_small"] = scen
     if job.get("sample"):
         out["sample"] = {"scenario": scen, "schedule_head": [[a, v, l] for a, v, l in rec["trace"][:25]],
                          "steps": rec["steps"], "end": rec["end"], "final": rec["final"].get("canon")}
@@ -244,3 +251,73 @@ class E1Part:
         for kid, fls in r.get("known", {}).items():
             hit += fls
         return {"fails": bool(hit), "what": [list(h) for h in hit][:3], "end": r.get("end")}
+
+
+class ReusePart(E1Part):
+    """get_reusable_executor / _resize on the real code under E1, each call compared with the decision model M1R"""
+
+    def __init__(self, pid, props, lean_modules, quick=1000, thorough=30000, families=None):
+        super().__init__(pid, families or [("reuse", 4), ("reusecrash", 1)], props, lean_modules, quick=quick,
+                         thorough=thorough, lockstep_on=False, name="reuse")
+
+    def correspondence(self, ctx, corr):
+        drv = C.Driver("reusable_driver")
+        try:
+            drv.ensure()
+        except C.Infra as e:
+            corr.model_error = str(e)
+            drv = None
+        jobs = self.jobs(ctx, self.n[ctx.tier])
+        res = self.run(jobs)
+        kinds, agree = self.absorb(ctx, corr, res)
+        lines, refs = [], []
+        for r in res:
+            if r.get("status") != "ok" or r.get("nusers") != 1:
+                continue
+            next_id = 0
+            for c in sorted(r.get("reuse_calls", []), key=lambda c: c["t1"]):
+                a, b, after = c["args"], c["before"], c["after"]
+                if c.get("death_before"):
+                    # a death may be detected between the caller's look at the previous instance and the decision
+                    next_id = max(next_id, after["id"] + 1)
+                    continue
+                prev = "none" if b is None else f"{b['id']}:{b['mw']}:{int(b['broken'])}:{int(b['shutdown'])}:{int(b['kwargs_same'])}"
+                reuse = {True: "yes", False: "no"}.get(a.get("reuse", "auto"), "auto")
+                lines.append(f"call {prev} {next_id} {r['cpu_count']} {a.get('max_workers') or 'none'} {reuse} {int(a.get('kill_workers', False))}")
+                if b is None:
+                    obs = f"created {after['id']}"
+                elif after["id"] == b["id"]:
+                    obs = f"reused {b['id']} {b['mw']} {after['mw']}"
+                else:
+                    obs = f"replaced {b['id']} {int(a.get('kill_workers', False))} {after['id']}"
+                refs.append((obs, r, c))
+                next_id = max(next_id, after["id"] + 1)
+                if b is not None and after["id"] == b["id"] and b["started"] and r["clean"] and not c["faults_during"] \
+                        and not b["broken"] and not b["shutdown"]:
+                    lines.append(f"resize {len(b['pids'])} {after['mw']}")
+                    kept = len(set(after["pids"]) & set(b["pids"]))
+                    refs.append((("resize", kept, len(after["pids"])), r, c))
+        if drv and lines:
+            outs = drv.run(lines)
+            ok = 0
+            for o, (obs, r, c) in zip(outs, refs):
+                if isinstance(obs, tuple):
+                    parts = o.split(" ")
+                    good = len(parts) == 4 and int(parts[2]) == obs[1] and int(parts[3]) == obs[2]
+                else:
+                    good = (o == obs)
+                if good:
+                    ok += 1
+                else:
+                    corr.disagreements.append({"input": {"scenario": r.get("scen") or r.get("scen_small"), "schedule": r.get("schedule", [])},
+                                               "model_vs_impl": {"model": o, "impl": obs, "call": c},
+                                               "family": r["family"], "seed": r["seed"]})
+            corr.extra["calls_compared_with_model"] = len(refs)
+            corr.extra["traces_validated_against_impl"] = ok
+        corr.rule = ("histories of get_reusable_executor calls (max_workers 1-4, reuse True/False/auto, kill_workers, changed initializer) "
+                     "interleaved with submissions and explicit shutdowns from 1-2 threads, executed by the REAL reusable_executor.py + "
+                     "process_executor.py under the deterministic scheduler with idle time-outs (and crashes in the reusecrash family); "
+                     f"oracles {self.props}; every call of single-thread histories is compared with the Lean decision model (action, ids, sizes), "
+                     "every fault-free resize with the resize plan (survivors, size). Distinct = distinct schedule traces.")
+        corr.extra["transitions"] = len(kinds)
+        corr.extra["states"] = len(corr.distinct)
